@@ -35,7 +35,11 @@ struct PubIn {
 	std::function<void()> restore;
 	Tag tag;                   // kind (for the catalogue) and coverage
 	std::vector<Z> neighbours; // "neighbour's value": another valid value of the same sort
-	PubIn() : target(NULL) {}
+	int stack, card, comp;     // stack component: stack 1 = s, 2 = s2 (0: not a card component), card index, component 1/2
+	bool bound;                // the verifier entry tests this input for group membership itself (CheckElement, which includes the
+	                           // range 0 < v < p) or hashes it literally: out-of-range representations (v+p, v+3p, v-p) and order-2
+	                           // twists of it must be refused, alone and in pairs
+	PubIn() : target(NULL), stack(0), card(0), comp(0), bound(false) {}
 	Z get() const { return target ? Z(target) : getv(); }
 	void set(const Z &w) { if (target) { mpz_set(target, w); if (sync) sync(); } else setv(w); }
 	void undo(const Z &orig) { if (target) { mpz_set(target, orig); if (sync) sync(); } else restore(); }
@@ -660,10 +664,12 @@ inline CellP make_stack_cc_vtmf(World &W, size_t n, const std::vector<size_t> &p
 		for (size_t i = 0; i < st->n; i++)
 		{
 			size_t o = (i + 1) % st->n;
-			PubIn a = pub_elem(*cp, "s.c_1", st->sV[i].c_1); a.tag.covered = any0; a.neighbours.push_back(Z(st->s[o].c_1)); out.push_back(a);
-			PubIn b = pub_elem(*cp, "s.c_2", st->sV[i].c_2); b.tag.covered = any0; b.neighbours.push_back(Z(st->s[o].c_2)); out.push_back(b);
-			PubIn d = pub_elem(*cp, "s2.c_1", st->s2V[i].c_1); d.tag.covered = any1; d.neighbours.push_back(Z(st->s2[o].c_1)); out.push_back(d);
-			PubIn e = pub_elem(*cp, "s2.c_2", st->s2V[i].c_2); e.tag.covered = any1; e.neighbours.push_back(Z(st->s2[o].c_2)); out.push_back(e);
+			std::string I = "[" + drv::str(i) + "]";
+			// s2 is tested with CheckElement before the first round; s only enters through the re-mixed stack that is hashed
+			PubIn a = pub_elem(*cp, "s" + I + ".c_1", st->sV[i].c_1); a.tag.covered = any0; a.neighbours.push_back(Z(st->s[o].c_1)); a.stack = 1, a.card = i, a.comp = 1; out.push_back(a);
+			PubIn b = pub_elem(*cp, "s" + I + ".c_2", st->sV[i].c_2); b.tag.covered = any0; b.neighbours.push_back(Z(st->s[o].c_2)); b.stack = 1, b.card = i, b.comp = 2; out.push_back(b);
+			PubIn d = pub_elem(*cp, "s2" + I + ".c_1", st->s2V[i].c_1); d.tag.covered = any1; d.neighbours.push_back(Z(st->s2[o].c_1)); d.stack = 2, d.card = i, d.comp = 1, d.bound = true; out.push_back(d);
+			PubIn e = pub_elem(*cp, "s2" + I + ".c_2", st->s2V[i].c_2); e.tag.covered = any1; e.neighbours.push_back(Z(st->s2[o].c_2)); e.stack = 2, e.card = i, e.comp = 2, e.bound = true; out.push_back(e);
 		}
 		size_t before = out.size();
 		group_pubins(*cp, st->W->B, out);
@@ -1042,9 +1048,18 @@ inline CellP make_shuffle(ShWorld &S, int proto, int mode, size_t n, const std::
 			if (wrapper) { t[0] = st->sV[i].c_1, t[1] = st->sV[i].c_2, t[2] = st->s2V[i].c_1, t[3] = st->s2V[i].c_2; }
 			else { t[0] = st->eV_[i].first, t[1] = st->eV_[i].second, t[2] = st->EV_[i].first, t[3] = st->EV_[i].second; }
 			mpz_srcptr nb[4] = {st->s[o].c_1, st->s[o].c_2, st->s2[o].c_1, st->s2[o].c_2};
-			const char *nm[4] = {"s.c_1", "s.c_2", "s2.c_1", "s2.c_2"};
-			// the class-level verifiers do not test the caller's cards for membership; the wrappers test the shuffled stack only
-			for (int k = 0; k < 4; k++) { PubIn a = pub_elem(*cp, nm[k], t[k]); a.neighbours.push_back(Z(nb[k])); if (!wrapper || k < 2) a.tag.weak = "order2-input"; out.push_back(a); }
+			const char *nm[4] = {"s", "s", "s2", "s2"};
+			// the class-level verifiers do not test the caller's cards for membership; the wrappers test the shuffled stack only;
+			// the non-interactive variants hash every component of both stacks literally
+			for (int k = 0; k < 4; k++)
+			{
+				PubIn a = pub_elem(*cp, std::string(nm[k]) + "[" + drv::str(i) + "].c_" + drv::str(k % 2 + 1), t[k]);
+				a.neighbours.push_back(Z(nb[k]));
+				if (!wrapper || k < 2) a.tag.weak = "order2-input";
+				a.stack = k / 2 + 1, a.card = i, a.comp = k % 2 + 1;
+				a.bound = (st->mode == 2) || (wrapper && k >= 2);
+				out.push_back(a);
+			}
 		}
 		std::shared_ptr<ShSt> s2 = st;
 		if (st->proto < 2)
